@@ -207,18 +207,24 @@ def r2(ctx):
         ok, txt = mt is not None, ""
         if mt is not None:
             bp = mt.args.args[1].arg
+            # constant propagation of witness datagrams through match(): every datagram in the vendor response format must be
+            # accepted (names with commas, empty names, long names included); what else it accepts is decided by decode()
+            ident = s["rid"].strip(b",")
+            if gen == "at4":
+                valid = [b"192.168.1.2,AA:BB:CC:DD:EE:FF," + ident + b",23236426", b"10.0.0.7,0," + ident + b",1"]
+            else:
+                valid = [b"192.168.1.2,E123456," + ident + b",1000,Home", b"192.168.1.2,E123456," + ident + b",1000,Beach house, upstairs",
+                         b"10.0.0.7,0," + ident + b",1,", b"10.0.0.7,0," + ident + b",1,a,b,c,d,e", b"10.0.0.7,0," + ident + b",1," + "caf\u00e9".encode()]
             rows = []
-            for echo in (False, True):
-                for has_id in (False, True):
-                    atoms = {f"{bp} == _REQUEST_DATA": echo, f"_REQUEST_DATA == {bp}": echo, f"_RESPONSE_ID in {bp}": has_id}
-                    try:
-                        got = Mini(ctx.repo, m, atoms).function_value(mt, {bp: "<datagram>"})
-                    except Unsupported as ex:
-                        raise AnalysisError(f"{m.relpath}: match() left the evaluable fragment: {ex}")
-                    rows.append((echo, has_id, got))
-            ok = all(bool(got) == (echo or has_id) for echo, has_id, got in rows) or all(bool(got) == has_id for echo, has_id, got in rows)
-            txt = "; ".join(f"echo={e}, contains-id={h} -> {g}" for e, h, g in rows)
-        ctx.check(ok, R, f"{gen}:match", m, mt, "match() accepts the request echo or anything containing ',AirTouchN,' and nothing else", txt)
+            for w in valid:
+                try:
+                    got = Mini(ctx.repo, m, {}).function_value(mt, {bp: w})
+                except Unsupported as ex:
+                    raise AnalysisError(f"{m.relpath}: match() left the evaluable fragment: {ex}")
+                rows.append((w, got))
+            ok = all(bool(got) for _, got in rows)
+            txt = "; ".join(f"match({w!r}) -> {g}" for w, g in rows if not g) or "all accepted"
+        ctx.check(ok, R, f"{gen}:match", m, mt, "match() accepts every datagram in the vendor response format (commas in the name, empty and non-ASCII names included; evaluated on witness datagrams by the checker's own interpreter)", txt)
 
 
 def _collector(ctx, op: Fn):
